@@ -16,6 +16,7 @@ package integration
 import (
 	"bytes"
 	"context"
+	"crypto/tls"
 	"encoding/hex"
 	"encoding/json"
 	"fmt"
@@ -99,7 +100,7 @@ func vWaitRecorders(sc *vScenario, byData bool, d time.Duration) bool {
 	return false
 }
 
-func vLoadServers(t *testing.T, servers map[string]any) {
+func vLoadServers(t *testing.T, servers map[string]any, extraApps ...map[string]any) {
 	tmp := t.TempDir() // keep caddy's data/config directories out of the way
 	os.Setenv("XDG_DATA_HOME", tmp)
 	os.Setenv("XDG_CONFIG_HOME", tmp)
@@ -108,6 +109,11 @@ func vLoadServers(t *testing.T, servers map[string]any) {
 		"admin":   map[string]any{"disabled": true, "config": map[string]any{"persist": false}},
 		"logging": map[string]any{"logs": map[string]any{"default": map[string]any{"writer": map[string]any{"output": "discard"}}}},
 		"apps":    map[string]any{"layer4": map[string]any{"servers": servers}},
+	}
+	for _, ea := range extraApps {
+		for k, v := range ea {
+			cfg["apps"].(map[string]any)[k] = v
+		}
 	}
 	raw, _ := json.Marshal(cfg)
 	if err := caddy.Load(raw, true); err != nil {
@@ -568,7 +574,27 @@ func TestVerifC01Layered(t *testing.T) {
 			runs = append(runs, run{&cp, k.name, split})
 		}
 	}
-	vLoadServers(t, servers)
+	// TLS in TLS: the outer ClientHello (sni outer.test) is matched and terminated by the tls handler,
+	// the inner stream starts with another ClientHello (sni inner.test) that the next route's tls
+	// matcher must judge on its own bytes
+	certPEM, keyPEM, err := vSelfSigned()
+	if err != nil {
+		t.Fatal(err)
+	}
+	tlsApp := map[string]any{"tls": map[string]any{"certificates": map[string]any{"load_pem": []any{
+		map[string]any{"certificate": certPEM, "key": keyPEM, "tags": []string{"verif"}}}}}}
+	const tlsPort = 60900
+	servers["lytls"] = map[string]any{"listen": []string{fmt.Sprintf("verifpipe/s:%d", tlsPort)}, "routes": []any{
+		map[string]any{"match": []any{map[string]any{"tls": map[string]any{"sni": []string{"outer.test"}}}}, "handle": []any{map[string]any{"handler": "tls"}}},
+		map[string]any{"match": []any{map[string]any{"tls": map[string]any{"sni": []string{"inner.test"}}}},
+			"handle": []any{map[string]any{"handler": "verif_rec", "sid": "lytls", "id": "inner", "terminal": true, "read_size": 4096}}},
+		map[string]any{"match": []any{map[string]any{"tls": map[string]any{"sni": []string{"outer.test"}}}},
+			"handle": []any{map[string]any{"handler": "verif_rec", "sid": "lytls", "id": "wrong", "terminal": true, "read_size": 4096}}},
+	}}
+	vLoadServers(t, servers, tlsApp)
+	for k := 0; k < 3; k++ {
+		vTLSInTLS(out, prop, tlsPort, k)
+	}
 	var wg sync.WaitGroup
 	sem := make(chan struct{}, 16)
 	for _, r := range runs {
@@ -607,4 +633,77 @@ func TestVerifC01Layered(t *testing.T) {
 	}
 	out.Stat("layered_connections", len(runs))
 	out.Stat("layered_failed", nfail)
+}
+
+// records what is written through it
+type vLogConn struct {
+	net.Conn
+	mu  sync.Mutex
+	log []byte
+}
+
+func (l *vLogConn) Write(p []byte) (int, error) {
+	l.mu.Lock()
+	l.log = append(l.log, p...)
+	l.mu.Unlock()
+	return l.Conn.Write(p)
+}
+
+func vTLSInTLS(out *vOut, prop string, port, k int) {
+	pipe, id, err := vPipeDialID(fmt.Sprintf("s:%d", port))
+	if err != nil {
+		out.Fail(prop+":layered:engine", "dial: "+err.Error(), nil)
+		return
+	}
+	defer pipe.Close()
+	_ = pipe.SetDeadline(time.Now().Add(8 * time.Second))
+	cfg := &tls.Config{ServerName: "outer.test", InsecureSkipVerify: true}
+	if k == 1 {
+		cfg.MaxVersion = tls.VersionTLS12
+	}
+	outer := tls.Client(pipe, cfg)
+	if err := outer.Handshake(); err != nil {
+		out.Fail(prop+":layered:outer-tls-handshake", "the outer TLS handshake failed: "+err.Error(), map[string]any{"connection": k})
+		return
+	}
+	go func() { // session tickets etc.
+		p := make([]byte, 4096)
+		for {
+			if _, err := outer.Read(p); err != nil {
+				return
+			}
+		}
+	}()
+	lc := &vLogConn{Conn: outer}
+	inner := tls.Client(lc, &tls.Config{ServerName: "inner.test", InsecureSkipVerify: true})
+	go func() { _ = inner.Handshake() }() // sends the inner ClientHello; nobody answers it
+	rec := vRecOf("lytls#" + id)
+	ok := false
+	for t0 := time.Now(); time.Since(t0) < 3*time.Second; time.Sleep(2 * time.Millisecond) {
+		lc.mu.Lock()
+		sent := append([]byte{}, lc.log...)
+		lc.mu.Unlock()
+		rec.mu.Lock()
+		got := append([]byte{}, rec.data["inner"]...)
+		rec.mu.Unlock()
+		if len(sent) > 0 && bytes.Equal(sent, got) {
+			ok = true
+			break
+		}
+	}
+	rec.mu.Lock()
+	wrong, ranInner, got := rec.ran["wrong"], rec.ran["inner"], len(rec.data["inner"])
+	rec.mu.Unlock()
+	lc.mu.Lock()
+	sent := len(lc.log)
+	lc.mu.Unlock()
+	in := map[string]any{"connection": k, "inner_client_hello_bytes": sent, "inner_route_ran": ranInner, "inner_route_read": got, "outer_sni_route_ran_on_inner_stream": wrong}
+	switch {
+	case ok:
+	case wrong > 0 || ranInner == 0:
+		out.Fail(prop+":layered:inner-tls-hello-misjudged", "behind the tls handler the inner stream starts with a ClientHello for inner.test, but the tls matchers of the later routes did not judge it by its own bytes (route for inner.test not taken / route for outer.test taken)", in)
+	default:
+		out.Fail(prop+":layered:inner-stream-corrupted", "the handler of the inner route did not read exactly the inner ClientHello the client sent", in)
+	}
+	out.Case(fmt.Sprintf("CE2E %d %d", 400000+k, sent), "layered/tls-in-tls", true, map[string]any{"desc": "tls in tls", "failed": !ok})
 }
